@@ -404,7 +404,7 @@ var keywordNames = []string{"From", "In", "Class", "Pass", "Type", "Func", "Defa
 	"Mod", "Pub", "Use", "Loop", "Move", "Ref", "Trait", "Async", "Enum", "Int", "Long", "Short", "Final", "Static", "Not", "Or", "And"}
 
 func (g *genState) fname(label string) string {
-	if g.cfg.KeywordNames && rapid.IntRange(0, 7).Draw(g.t, label+"_kw") == 0 {
+	if (g.cfg.KeywordNames && !g.cfg.avoid("names:keyword") || os.Getenv("VERIF_KEYWORDS") != "") && rapid.IntRange(0, 7).Draw(g.t, label+"_kw") == 0 {
 		w := rapid.SampledFrom(keywordNames).Draw(g.t, label+"_kwname")
 		if !g.nm.used[norm(w)] {
 			g.nm.used[norm(w)] = true
